@@ -382,8 +382,9 @@ func (decomposer *Decomposer) DecomposeAndSplit(levelQ, levelP, nbPi, BaseRNSDec
 
 	ringQ := decomposer.ringQ.AtLevel(levelQ)
 
+	// levelP = -1: the auxiliary modulus is not used
 	var ringP *Ring
-	if decomposer.ringP != nil {
+	if decomposer.ringP != nil && levelP > -1 {
 		ringP = decomposer.ringP.AtLevel(levelP)
 	}
 
